@@ -327,17 +327,20 @@ def TV.hasDeltasForAllPoints (p : TVD) (t : TV) : Option Bool :=
 def sharedTupleGet (sd : List Nat) (ac idx : Nat) : Option (List Int) :=
   (compGet sd.length (2 * ac) idx).map (fun off => tupleVals sd off ac)
 
+/-- the first half of `TupleVariation::peak`:
+`tuple_records_index().and_then(|idx| self.shared_tuples.as_ref()?.get(idx as usize).ok())` -/
+def peakShared (p : TVD) (ti : Nat) : Option (List Int) :=
+  match tiRecordsIndex ti, p.shared with
+  | some idx, some sd => sharedTupleGet sd p.ac idx
+  | _, _ => none
+
 /-- `TupleVariation::peak`: `tuple_records_index().and_then(|idx| shared_tuples?.get(idx).ok())
 .or_else(|| header.peak_tuple()).unwrap_or_default()`; `none` = panic -/
 def TV.peak (p : TVD) (t : TV) : Option (List Int) :=
   match t.hdr.ti with
   | none => none
   | some ti =>
-    let fromShared : Option (List Int) :=
-      match tiRecordsIndex ti, p.shared with
-      | some idx, some sd => sharedTupleGet sd p.ac idx
-      | _, _ => none
-    match fromShared with
+    match peakShared p ti with
     | some v => some v
     | none =>
       match t.hdr.peakTuple with
@@ -383,18 +386,40 @@ def f32Loop (inter : Option (List Int × List Int)) (coords pk : List Int) : Lis
 /-- `TupleVariation::compute_scalar_f32(coords)`, `Some` / `None` only: the two intermediate tuples
 are fetched before the length test -/
 def TV.computeScalarF32 (p : TVD) (t : TV) (coords : List Int) : R Bool :=
-  match t.peak p, t.hdr.interStartTuple, t.hdr.interEndTuple with
-  | none, _, _ => .trap
-  | _, .trap, _ => .trap
-  | _, _, .trap => .trap
-  | some pk, is_, ie =>
-    if pk.length ≠ p.ac then .ok false
+  match t.peak p with
+  | none => .trap
+  | some pk =>
+    match t.hdr.interStartTuple with
+    | .trap => .trap
+    | is_ =>
+      match t.hdr.interEndTuple with
+      | .trap => .trap
+      | ie =>
+        if pk.length ≠ p.ac then .ok false
+        else
+          let inter : Option (List Int × List Int) :=
+            match is_, ie with
+            | .some a, .some b => some (a, b)
+            | _, _ => none
+          .ok (f32Loop inter coords pk (List.range p.ac))
+
+/-- `TupleVariationData::active_tuples_at(coords).collect()`:
+`self.tuples().filter_map(|tuple| Some((tuple, tuple.compute_scalar(coords)?)))`; `none` = out of fuel,
+`some (.trap)` = a panic inside `tuples()` or `compute_scalar` -/
+def activeTuples (p : TVD) (coords : List Int) : Option (R (List (TV × Int))) :=
+  match tvTrace p with
+  | none => none
+  | some evs =>
+    if trapped evs then some .trap
     else
-      let inter : Option (List Int × List Int) :=
-        match is_, ie with
-        | .some a, .some b => some (a, b)
-        | _, _ => none
-      .ok (f32Loop inter coords pk (List.range p.ac))
+      some ((items evs).foldr (fun t acc =>
+        match t.computeScalar p coords, acc with
+        | .trap, _ => .trap
+        | _, .trap => .trap
+        | _, .err e => .err e
+        | .err e, _ => .err e
+        | .ok (some v), .ok l => .ok ((t, v) :: l)
+        | .ok none, .ok l => .ok l) (.ok []))
 
 /-- `TupleVariation::deltas` + `TupleDeltaIter::new` with the point numbers `pd` and the packed
 deltas `dd` in separate buffers (`ReadIter.tdInit` is the special case of private points); `none` = a
